@@ -154,6 +154,7 @@ package sam
 //@ func ReaderHeader
 //@   props C03 C06 C07 C11 C18
 //@   sequential
+//@   branch-split
 //@   yields Y
 //@   witness br
 //@   ensures !stopped && br.fault ==> len(Y) > 0 && Y[len(Y)-1].1 == br.err
@@ -167,8 +168,12 @@ package sam
 //@   ensures @C03 !stopped && !br.fault ==> br.pos == E
 //@   ensures @C03 !stopped && !br.fault ==> len(Y) == nbl(IN, E, lnN(IN, E))
 //@   ensures @C03 !br.fault ==> len(Y) <= nbl(IN, E, lnN(IN, E))
-//@   ensures @C03 !br.fault ==> forall k int :: {lnS(IN, E, k)} 0 <= k && k < lnN(IN, E) && !lblank(IN, E, k) && nbl(IN, E, k) < len(Y) && IN[lnS(IN, E, k)] == '@' ==>
+//@   splitvar k == IT
+//@   ensures @C03 forall k int :: {lnS(IN, E, k)} !br.fault && 0 <= k && k < lnN(IN, E) && !lblank(IN, E, k) && nbl(IN, E, k) < len(Y) && IN[lnS(IN, E, k)] == '@' ==>
 //@             Y[nbl(IN, E, k)].1 == nil && Y[nbl(IN, E, k)].0.S == nil && Y[nbl(IN, E, k)].0.H != nil && isLine(deref(Y[nbl(IN, E, k)].0.H), IN, E, k)
+// every other non-blank line is yielded as the result of parseLine on its TAB-separated fields (folded: samOK / samParsed, specs/25sam.spec)
+//@   ensures @C03 forall k int :: {lnS(IN, E, k)} !br.fault && 0 <= k && k < lnN(IN, E) && !lblank(IN, E, k) && nbl(IN, E, k) < len(Y) && IN[lnS(IN, E, k)] != '@' ==>
+//@             Y[nbl(IN, E, k)].0.H == nil && (Y[nbl(IN, E, k)].1 == nil <==> samOK(splitA(lnStr(IN, E, k), 9), splitN(lnStr(IN, E, k), 9))) && (Y[nbl(IN, E, k)].1 == nil ==> Y[nbl(IN, E, k)].0.S != nil && samParsed(Y[nbl(IN, E, k)].0.S.Qname, Y[nbl(IN, E, k)].0.S.Flag, Y[nbl(IN, E, k)].0.S.Rname, Y[nbl(IN, E, k)].0.S.Pos, Y[nbl(IN, E, k)].0.S.Mapq, Y[nbl(IN, E, k)].0.S.Cigar, Y[nbl(IN, E, k)].0.S.Rnext, Y[nbl(IN, E, k)].0.S.Pnext, Y[nbl(IN, E, k)].0.S.Tlen, Y[nbl(IN, E, k)].0.S.Seq, Y[nbl(IN, E, k)].0.S.Qual, maphas(Y[nbl(IN, E, k)].0.S.Tags), mapval(Y[nbl(IN, E, k)].0.S.Tags), splitA(lnStr(IN, E, k), 9), splitN(lnStr(IN, E, k), 9)))
 //@   loop 1
 //@     invariant br.pos <= br.end && !br.fired
 //@     invariant forall t int :: 0 <= t && t < len(Y) ==> Y[t].1 == nil || localErr(Y[t].1)
@@ -179,6 +184,9 @@ package sam
 //@     invariant @C03 forall k int :: {nbl(IN, E, k)} IT < k && IT < lnN(IN, E) && !lblank(IN, E, IT) ==> nbl(IN, E, k) > len(Y)
 //@     invariant @C03 forall k int :: {lnS(IN, E, k)} 0 <= k && k < IT && !lblank(IN, E, k) && IN[lnS(IN, E, k)] == '@' ==>
 //@                 Y[nbl(IN, E, k)].1 == nil && Y[nbl(IN, E, k)].0.S == nil && Y[nbl(IN, E, k)].0.H != nil && isLine(deref(Y[nbl(IN, E, k)].0.H), IN, E, k)
+//@     invariant @C03 forall k int :: {lnS(IN, E, k)} 0 <= k && k < IT && !lblank(IN, E, k) && IN[lnS(IN, E, k)] != '@' ==>
+//@                 Y[nbl(IN, E, k)].0.H == nil && (Y[nbl(IN, E, k)].1 == nil <==> samOK(splitA(lnStr(IN, E, k), 9), splitN(lnStr(IN, E, k), 9))) && (Y[nbl(IN, E, k)].1 == nil ==> Y[nbl(IN, E, k)].0.S != nil && samParsed(Y[nbl(IN, E, k)].0.S.Qname, Y[nbl(IN, E, k)].0.S.Flag, Y[nbl(IN, E, k)].0.S.Rname, Y[nbl(IN, E, k)].0.S.Pos, Y[nbl(IN, E, k)].0.S.Mapq, Y[nbl(IN, E, k)].0.S.Cigar, Y[nbl(IN, E, k)].0.S.Rnext, Y[nbl(IN, E, k)].0.S.Pnext, Y[nbl(IN, E, k)].0.S.Tlen, Y[nbl(IN, E, k)].0.S.Seq, Y[nbl(IN, E, k)].0.S.Qual, maphas(Y[nbl(IN, E, k)].0.S.Tags), mapval(Y[nbl(IN, E, k)].0.S.Tags), splitA(lnStr(IN, E, k), 9), splitN(lnStr(IN, E, k), 9)))
+//@     splitvar k == IT - 1
 //@     decreases (br.end - br.pos) + (br.fired ? 0 : 1) + (br.fault && br.forever ? 1 : 0)
 
 //@ func Reader
@@ -231,6 +239,9 @@ package sam
 //@   ensures @C03 result.1 == nil ==> !isnil(R.Tags) && forall j int :: 11 <= j && j < n ==> has(R.Tags, tname(L[j]))
 //@   ensures @C03 result.1 == nil ==> forall j int :: 11 <= j && j < n && (forall i int :: j < i && i < n ==> tname(L[i]) != tname(L[j])) ==> R.Tags[tname(L[j])] == tval(L[j])
 //@   ensures @C03 result.1 == nil ==> forall k string :: has(R.Tags, k) ==> exists j int :: 11 <= j && j < n && tname(L[j]) == k && R.Tags[k] == tval(L[j])
+// the same, folded (specs/25sam.spec): what ReaderHeader's trace says about a record item
+//@   ensures @C03 result.1 == nil <==> samOK(arr(L), n)
+//@   ensures @C03 result.1 == nil ==> samParsed(R.Qname, R.Flag, R.Rname, R.Pos, R.Mapq, R.Cigar, R.Rnext, R.Pnext, R.Tlen, R.Seq, R.Qual, maphas(R.Tags), mapval(R.Tags), arr(L), n)
 
 //@ func parseInts
 //@   props C03 C11
@@ -359,9 +370,13 @@ package sam
 //@   ensures @C03 ok ==> forall m int :: {tw(texts, m)} 0 <= m && m < len(texts) ==> w.out[E10 + tw(texts, m)] == 9
 //@   ensures @C03 ok ==> forall m int, x int :: {tws(texts, m), w.out[x]} 0 <= m && m < len(texts) && E10 + tws(texts, m) <= x && x < E10 + tws(texts, m) + len(texts[m]) ==>
 //@             w.out[x] == texts[m][x - (E10 + tws(texts, m))]
+// a record made of clean text (no TAB/CR/LF in the text fields and in the optional-field texts) is written as ONE line
+//@   let CL := cleanStr(s.Qname) && cleanStr(s.Rname) && cleanStr(s.Cigar) && cleanStr(s.Rnext) && cleanStr(s.Seq) && cleanStr(s.Qual) && forall j int :: {texts[j]} 0 <= j && j < len(texts) ==> cleanStr(texts[j])
+//@   ensures @C03 ok && CL ==> forall x int :: L0 <= x && x < len(w.out) - 1 ==> w.out[x] != 10 && w.out[x] != 13
 //@   loop 1
 //@     snapshot P := w.out
 //@     invariant s != nil && !w.failed && 0 <= K && K <= len(texts)
+//@     invariant CL ==> forall x int :: L0 <= x && x < len(w.out) ==> w.out[x] != 10 && w.out[x] != 13
 //@     invariant len(w.out) == len(P) + tw(texts, K)
 //@     invariant forall x int :: 0 <= x && x < len(P) ==> w.out[x] == P[x]
 //@     invariant forall m int :: {tw(texts, m)} 0 <= m && m < K ==> w.out[len(P) + tw(texts, m)] == 9
